@@ -59,7 +59,12 @@ def reproject(ctx, P, view):
                 from ..scans import _subst
                 got = {e.d["target"][len(tok) + 1:]: _subst(e.d["value"], defs) for e in evs if e.kind == "assign" and e.d["target"].startswith(tok + ".")}
                 want = {"service_start_date": "self.now", "date_last_update": "self.now", "service_time": "self.get_service_time(%s)" % tok, "time_left": "%s.service_time" % tok, "with_server": "True"}
+                S_ = want["service_time"]
+                st_v, tl_v = got.get("service_time"), got.get("time_left")
+                both_sampled = (st_v == S_ and tl_v in (S_, "%s.service_time" % tok)) or (tl_v == S_ and st_v in (S_, "%s.time_left" % tok))
                 for k, v in want.items():
+                    if k in ("time_left", "service_time") and both_sampled:
+                        continue        # one sampled requirement stored into both fields, in either order
                     if got.get(k) != v:
                         ctx.violation(ob, "R7.ps-start", "PSNode.%s" % m, "%s.%s = %s" % (tok, k, got.get(k)), "ps-start-bookkeeping",
                                       "a PS service start must set %s = %s (work accounting starts from the full requirement at this instant)" % (k, v), evs[i].where, rules.witness(st))
@@ -234,6 +239,17 @@ def rate(ctx, P, view):
         if isinstance(comp, ast.ListComp) and len(comp.generators) == 1:
             g = comp.generators[0]
             okf = unparse(g.iter) == "self.all_individuals" and unparse(comp.elt) == unparse(g.target) and len(g.ifs) == 1 and guards.norm(g.ifs[0], unparse) == ("truth", "%s.with_server" % unparse(g.target))
+    if not okf and loops and unparse(loops[0].iter) == "self.all_individuals" and isinstance(loops[0].target, ast.Name):
+        # the same filter written inside the loop: `if not v.with_server: continue` first, or the whole body under `if v.with_server:`
+        v_ = loops[0].target.id
+        body_ = [s_ for s_ in loops[0].body if not isinstance(s_, ast.Pass)]
+        if body_ and isinstance(body_[0], ast.If):
+            f_ = guards.norm(body_[0].test, unparse)
+            only_continue = len(body_[0].body) == 1 and isinstance(body_[0].body[0], ast.Continue) and not body_[0].orelse
+            if only_continue and f_ == ("not", ("truth", "%s.with_server" % v_)):
+                okf = True
+            if len(body_) == 1 and not body_[0].orelse and f_ == ("truth", "%s.with_server" % v_):
+                okf = True
     if not okf:
         problems.append(("in-service-filter", "exactly the customers flagged with_server share the server"))
     # every call re-projects: no early exit, the per-customer loop is not conditional
